@@ -171,7 +171,15 @@ impl World {
         self.nodes[i].back = Some(brx);
         self.nodes[i].running = true;
         tokio::task::spawn_local(async move {
-            let res = rep.sync(&mut srv, avoid).await.map_err(|e| format!("{e:#}"));
+            // a panic in the code under test is a result, not a harness crash
+            let res = match crate::backenddrv::futures_catch(std::panic::AssertUnwindSafe(
+                rep.sync(&mut srv, avoid),
+            ))
+            .await
+            {
+                Ok(r) => r.map_err(|e| format!("{e:#}")),
+                Err(p) => Err(format!("panic: {p}")),
+            };
             tx.send((i, Ev::Finished(res))).unwrap();
             let _ = btx.send((rep, srv));
         });
@@ -213,7 +221,9 @@ impl World {
                         }
                         let st = self.observe(i).await;
                         let post = self.db_json(&st);
-                        let kind = if msg.to_lowercase().contains("out of sync") {
+                        let kind = if msg.starts_with("panic: ") {
+                            "panic"
+                        } else if msg.to_lowercase().contains("out of sync") {
                             "outofsync"
                         } else if msg.contains("injected") {
                             "injected"
